@@ -16,7 +16,7 @@ NoteDrift(n) == TLCSet(3, TLCGet(3) \cup {n})
 See(p, obs) == seen \o [i \in 1..Len(obs) |-> [p |-> p, k |-> obs[i].k, v |-> obs[i].v]]
 
 Par(t, k, d) == IF k \in DOMAIN t.params THEN t.params[k] ELSE d
-ScenOf(t) == [src |-> SrcChars(Par(t, "src", "d")), wts |-> WtChars(Par(t, "wts", "w"))]
+ScenOf(t) == [src |-> SrcChars(Par(t, "src", "d")), wts |-> WtChars(Par(t, "wts", "w")), own |-> Par(t, "own", "1") = "1"]
 
 TInit ==
   /\ TLCSet(1, {}) /\ TLCSet(2, 1) /\ TLCSet(3, {})
